@@ -50,7 +50,8 @@ INITIALISMS = {"API", "ASCII", "CPU", "CSS", "DNS", "EOF", "GUID", "HTML", "HTTP
                "URI", "URL", "UTF8", "VM", "XML"}
 ENUM_NAME_THROUGH_TYPEDEF = True
 DEFAULT_FEATURES = {"services": True, "scopes": True, "consts": True, "recursive": True,
-                    "typedef_struct": True, "typedef_chain_include": False, "new_prefix": True, "snake_service": False}
+                    "typedef_struct": True, "typedef_chain_include": False, "new_prefix": True, "snake_service": False,
+                    "service_typedef_foreign": False}
 
 
 # ------------------------------------------------------------------------------------------------
@@ -756,6 +757,13 @@ class _Gen:
             for a in args:
                 a["name"] = a["name"].lower().replace("_", "") + "a"   # Go parameter names are lower-cased by the generator
             ret = None if (oneway or rng.random() < 0.25) else self.rand_type(fn)
+            if not self.feat["service_typedef_foreign"]:
+                # a service file imports only the includes its signatures name directly (known finding of C02)
+                for a in args:
+                    if _foreign_via_typedef(self.program, fn, a["type"]):
+                        a["type"], a["default"] = ["i32"], None
+                if ret is not None and _foreign_via_typedef(self.program, fn, ret):
+                    ret = ["i64"]
             throws = []
             if not oneway and excs and rng.random() < 0.6:
                 for i, (vf, d) in enumerate(rng.sample(excs, min(len(excs), rng.randrange(1, 3)))):
@@ -771,6 +779,9 @@ class _Gen:
         pv = rng.choice([("", []), ("pre", []), ("a.{user}", ["user"]), ("{t1}.x.{t2}", ["t1", "t2"])])
         ops = [{"name": rng.choice(["Created%d", "thing_updated_%d", "Op%d"]) % self.uid(), "type": self.rand_type(fn)}
                for _ in range(rng.randrange(1, 4))]
+        for o in ops:
+            if not self.feat["service_typedef_foreign"] and _foreign_via_typedef(self.program, fn, o["type"]):
+                o["type"] = ["string"]
         self.program["files"][fn]["scopes"].append({"name": self.name(["Events%d", "scope_%d"]), "prefix": pv[0],
                                                     "vars": pv[1], "ops": ops})
 
@@ -809,6 +820,18 @@ class _Gen:
                 self.gen_service(fn)
         if self.feat["scopes"] and rng.random() < 0.7:
             self.gen_scope(fn)
+
+
+def _foreign_via_typedef(program, fn, t, via=False):
+    """does t reach, through a typedef, a declaration of another file?"""
+    if t[0] == "ref":
+        k, d = lookup(program, t[1], t[2])
+        if via and t[1] != fn:
+            return True
+        if k == "typedef":
+            return _foreign_via_typedef(program, fn, d["type"], True)
+        return False
+    return any(_foreign_via_typedef(program, fn, x, via) for x in t[1:] if isinstance(x, list))
 
 
 def _mentions_ref(t):
